@@ -34,11 +34,24 @@ PROPS["C05"] = dict(
         L("C05.kEscapedMap", "c05_unicode.c", "h_kEscapedMap", UNI, function="kEscapedMap",
           replay="escmap", claims="all 256 bytes: entry != 0 iff one of the eight escapes, and equals its meaning"),
     ],
-    trusted_base=COMMON_TRUST,
+    trusted_base=COMMON_TRUST + MODEL_TRUST,
     assumptions=[],
     undecided=[],
     explanation="",
 )
+for arch, vdef in (("avx2", "VEC_LEN=32"), ("sse", "VEC_LEN=16")):
+    sbu = ["%s.%s" % (arch, f) for f in ("TrailingZeroes", "LeadingZeroes", "CountOnes", "PrefixXor")] + UNI + \
+          ["%s.StringBlock.%s" % (arch, m) for m in ("fields", "HasQuoteFirst", "HasBackslash", "HasUnescaped", "QuoteIndex", "BsIndex", "UnescapedIndex", "Find")] + ["parseStringInplace"]
+    PROPS["C05"]["jobs"].append(dict(
+        id="C05.StringBlock@" + arch, src="c05_string.c", harness="h_StringBlock", units=sbu, defs=[vdef], arch=arch, route="L", function="StringBlock::Find + predicates",
+        unwind=34, replay="stringblock", timeout=900,
+        claims="all VEC_LEN-byte blocks: the three masks equal the per-byte predicates (backslash, quote, < 0x20); HasQuoteFirst/HasBackslash/HasUnescaped/QuoteIndex/BsIndex describe the first special byte; reads exactly VEC_LEN bytes"))
+    VL = 32 if arch == "avx2" else 16
+    for nmax in (VL + 8,):
+        PROPS["C05"]["jobs"].append(dict(
+            id="C05.parseStringInplace@" + arch, src="c05_string.c", harness="h_parseStringInplace", units=sbu, defs=[vdef, "NMAX=%d" % nmax], arch=arch,
+            route="B(raw length<=%d)" % nmax, bound="raw literal length <= %d (VEC_LEN + 8)" % nmax, function="parseStringInplace", unwind=nmax + VL + 14, object_bits=14, replay="parsestring", timeout=1500,
+            claims="bounded: for every literal content up to the bound (hence every offset of every special byte relative to the vector blocks): accepted iff RFC 8259 accepts; decoded bytes, length and source advance equal the scalar oracle; rejected literals yield one of the three string-fault codes; reads stay inside literal + VEC_LEN + 12 bytes"))
 
 
 # ===================================================================================== C11
@@ -160,17 +173,20 @@ for arch, vdef in ARCHS:
     for path, xd in (("production", []), ("sanitize", ["SANITIZE_PATH"])):
         C09_JOBS.append(c09("Quote.contract.%s" % path, "h_Quote", function="Quote (%s path)" % path, xdefs=xd + ["CONTRACT_ONLY_DoEscape", "QBOUND=%d" % (2 * VL + 8)],
             route="B(nb<=2*VEC_LEN+8)", bound="nb <= %d" % (2 * VL + 8), enforce="Quote", replace=["DoEscape", "memcpy", "CopyAndGetEscapMask"],
-            unwind=2 * VL + 10, replay="quote",
+            unwind=2 * VL + 10, replay="quote", thorough_only=True, object_bits=16,
             claims="bounded (loops unwound, function contract enforced by DFCC, callees by contract): " + ("string at any offset of a whole-page object, ending up to its last byte" if not xd else "source heap block of exactly nb bytes") +
                    ": no read outside the source object, writes only inside the 6*nb+35 reservation, result length in [nb+2, 6*nb+2], delimited by quotes; DoEscape / CopyAndGetEscapMask preconditions hold at every call site"))
         C09_JOBS.append(c09("Quote.exact.%s" % path, "h_Quote_exact", function="Quote (%s path)" % path, xdefs=xd, route="B(nb<=2*VEC_LEN+8)", bound="nb <= %d" % (2 * VL + 8),
-            unwind=2 * VL + 10, replay="quote",
+            unwind=2 * VL + 10, replay="quote", thorough_only=True, object_bits=16,
             claims="bounded (real callees inlined): output bytes and length equal the RFC 8259 quoting of exactly the nb source bytes, for every content, every length up to two blocks + 8, every page offset; bytes behind the string unconstrained"))
 C09_JOBS.append(dict(id="C09.tables", src="c09_quote.c", harness="h_quote_tables", units=C09_JOBS[0]["units"], defs=["VEC_LEN=32"], arch="avx2", route="L", function="kQuoteTab / kNeedEscaped",
     replay="quotetab", claims="all 256 bytes: need-escape flag, escape length (0/2/6) and escape text equal RFC 8259 section 7; the 8 bytes DoEscape copies are readable"))
 C09_JOBS.append(dict(id="C09.DoEscape", src="c09_quote.c", harness="h_DoEscape", units=C09_JOBS[0]["units"], defs=["VEC_LEN=32"], arch="avx2", route="U", function="DoEscape",
     enforce="DoEscape", loop_contracts=True, expect_loops=1,
     claims="any nb >= 1 on exact-size blocks: reads only [src, src+nb), writes only [dst, dst+6*nb+2); consumes k >= 1 bytes, emits 2k..6k bytes, stops at the first byte needing no escape"))
+C09_JOBS.append(dict(id="C09.DoEscape.exact", src="c09_quote.c", harness="h_DoEscape_exact", units=C09_JOBS[0]["units"], defs=["VEC_LEN=32"], arch="avx2", route="B(run<=4)", bound="runs of at most 4 consecutive escaped bytes (nb <= 5)",
+    function="DoEscape", unwind=8, object_bits=16, replay="doescape",
+    claims="bounded: consumes exactly the maximal run of bytes needing an escape and emits exactly their RFC 8259 escape texts, byte for byte"))
 PROPS["C09"] = dict(level="other", jobs=C09_JOBS, trusted_base=COMMON_TRUST + MODEL_TRUST, assumptions=[], undecided=[], explanation="")
 
 
@@ -208,3 +224,27 @@ for hn, fn, cl in (("h_walks", "Clear / Size / Capacity", "pools of <= 3 chunks:
     C16_JOBS.append(dict(id="C16.%s" % hn[2:], src="c16_alloc.c", harness=hn, units=C16_LIFE, defs=["UNIT_Lifecycle"], arch="simple", route="B(<=3 chunks)", bound="chunk list length <= 3, capacities <= 64",
                          function="MemoryPoolAllocator::" + fn, unwind=5, timeout=900, replay="pool_life", claims="bounded: " + cl))
 PROPS["C16"] = dict(level="other", jobs=C16_JOBS, trusted_base=COMMON_TRUST, assumptions=[], undecided=[], explanation="")
+
+
+# ===================================================================================== C06 (growth contracts of the write buffer)
+C06_UNITS = ["SONIC_ALIGN", "Stack.fields", "Stack.Size", "Stack.Capacity", "Stack.Clear", "Stack.setZero", "Stack.Reserve", "Stack.Grow", "Stack.Push_char",
+             "Stack.PushUnsafe_char", "Stack.PushSize_char", "Stack.PushSizeUnsafe_char", "Stack.Pop_char", "Stack.End_char", "Stack.Begin_char",
+             "Stack.Push_str", "Stack.PushUnsafe_str", "Stack.Push5_8"]
+OBS_REALLOC = []
+def c06(id, harness, **kw):
+    d = dict(id="C06." + id, src="c06_stack.c", harness=harness, units=C06_UNITS, defs=[], arch="-", route="L", timeout=900, small_cex=True, observe=OBS_REALLOC,
+             flags=["--no-malloc-may-fail"], gi_flags=["--no-malloc-may-fail"])
+    d.update(kw)
+    return d
+C06_JOBS = []
+for st, sd, off in (("allocated", [], []), ("null", ["NULL_STATE=1"], [])):
+    note = " [pointer checks are off inside Grow and Size only: Grow's capacity test compares pointers past the end of the block (NULL + n in the moved-from state) and Reserve evaluates Size() right after realloc; neither touches a buffer byte; every dereference and memcpy extent in the emitters is checked]"
+    C06_JOBS += [
+    c06("Stack.Reserve@" + st, "h_Reserve", function="Stack::Reserve (+Size, Capacity)", enforce="Stack_Reserve", replay="stack_reserve", defs=sd, checks_off=off,
+        claims="any well-formed buffer (capacity 0, partly filled, full), any request 1..2^40: capacity becomes max(old, request); block of SONIC_ALIGN(capacity) bytes; Size() and the first Size() bytes preserved (ghost index)" + note),
+    c06("Stack.Grow@" + st, "h_Grow", function="Stack::Grow (+Reserve inlined)", enforce="Stack_Grow", replay="stack_grow", defs=sd, checks_off=off,
+        claims="any well-formed buffer, any cnt (cnt >= 1 or capacity >= 1): afterwards End()+cnt <= Begin()+Capacity(); capacity never shrinks; size and contents preserved; both growth branches" + note),
+    c06("Stack.pushers@" + st, "h_pushers", function="Stack::Push<char> / Push(s,n) / Push5_8 / PushSize / PushUnsafe / PushSizeUnsafe (+Grow, Reserve inlined)", replay="stack_push", defs=sd, checks_off=off,
+        claims="every emitter writes only inside the capacity it reserved, appends the stated number of bytes, keeps earlier contents; Grow(k) followed by unchecked pushes of <= k bytes stays inside the capacity" + note),
+    ]
+PROPS["C06"] = dict(level="other", jobs=C06_JOBS, trusted_base=COMMON_TRUST, assumptions=[], undecided=[], explanation="")
